@@ -226,8 +226,10 @@ CLAIM10 = dict(
          "identical, and the whole dumped environment is identical (modulo repository root) across all runs with the same listed values.",
     note="Target-level pass_unsafe_env does not exist in the pinned tree (BuildTarget.PassUnsafeEnv is never assigned), so pass_unsafe_env is "
          "exercised through [build] passunsafeenv; an unset listed variable may appear as absent or empty (os.Getenv); sandboxed actions are "
-         "not exercised (no sandbox tool offline); bounded: 3 variables x 3 values, 4 targets, <=2 (quick, sampled) / <=3 (thorough, sampled) "
-         "environment changes; trusted: the action log and the env dump written by the generated commands.",
+         "not exercised (no sandbox tool offline); bounded: 3 variables x 3 values, 4 targets, 6 configurations, histories of <=2 (quick) / <=3 "
+         "(thorough) environment changes sampled round-robin over history classes (110 / 1200 histories), the model itself checked to 4 changes; "
+         "besides the modelled variables every invocation plants never-listed variables (fresh VERIF_LEAK_n names and well-known names such as "
+         "LANG, USER, TERM, TZ with random values); trusted: the action log and the env dump written by the generated commands.",
     technique="TLA+ spec BuildEnv.tla model-checked with TLC; TLC-generated environment/build histories replayed e2e into the real plz binary, env dumps and executed sets compared with the spec")
 
 
@@ -561,8 +563,9 @@ CLAIM35 = dict(
          "Verdict: exit status against the spec's ok/fail/either, and on success under declared hashes the output bytes are the fresh ones.",
     note="Weakest reading: a right value whose prefix names another algorithm, or that is right only under [build] hashfunction, may go either "
          "way; presence of files in plz-out after a failed verification is recorded, not judged (only being treated as verified by a later "
-         "build or restore is). Bounded: one target, two contents, <=2 (quick, sampled) / <=3 (thorough, sampled) edits; remote/HTTP caches "
-         "and --nohash_verification not exercised; trusted: SHA/BLAKE3 collision freedom, the harness's hash implementations.",
+         "build or restore is). Bounded: one target, two contents, histories of <=2 (quick) / <=3 (thorough) edits sampled round-robin over history "
+         "classes (120 / 800 histories); remote/HTTP caches, dircompress and --nohash_verification not exercised; trusted: SHA/BLAKE3 collision "
+         "freedom, the harness's hash implementations.",
     technique="TLA+ spec DeclaredHashes.tla model-checked with TLC; TLC-generated histories replayed e2e into the real plz binary with independently computed hash values")
 
 
@@ -585,7 +588,7 @@ def run_c35(ctx):
         # the generating run checks that the model as the code is departs from the property only through the recorded flaws;
         # one worker: BFS order, hence the representative history of every state, is then reproducible
         r = vlib.tlc(ctx, "DeclaredHashes", "GEN_DeclaredHashes_q.cfg" if ctx.quick else "GEN_DeclaredHashes_t.cfg", workers=1 if ctx.quick else 6, timeout=2400)
-        behs, total = sample(r.behaviours, 120 if ctx.quick else 1000, ctx.seed, c35_nontrivial, c35_class)
+        behs, total = sample(r.behaviours, 120 if ctx.quick else 800, ctx.seed, c35_nontrivial, c35_class)
     ctx.extra["histories_enumerated_by_tlc"] = total
     drift = left = 0
     drift_samples = []
